@@ -1,5 +1,7 @@
 """C19 — project configuration round-trips through its file format
-(internal/project/config.go, version.go; go-toml v2's encoder as used)."""
+(internal/project/config.go, version.go; go-toml v2's encoder as used; cmd/dawn/get.go and tidy.go)."""
+import binascii
+import hashlib
 import json
 import os
 import subprocess
@@ -7,14 +9,34 @@ import subprocess
 import vcheck
 
 OVERLAY = {"cmd/verif_config/main.go": "main.go"}
+CMD_OVERLAY = {"cmd/dawn/zz_verif_test.go": "cmd_test.go"}
 
 
 def harness(c):
     return c.go_harness("config", OVERLAY, "./cmd/verif_config", tags="")
 
 
+def cmd_harness(c):
+    """the command layer (cmd/dawn is package main): a test binary with harness/config/cmd_test.go overlaid into it"""
+    exe = os.path.join(vcheck.BUILD, "harness-configcmd-%s" % hashlib.sha1(vcheck.REPO.encode()).hexdigest()[:8])
+    ov = {"Replace": {os.path.join(vcheck.REPO, k): os.path.join(vcheck.VERIF, "harness", "config", v)
+                      for k, v in CMD_OVERLAY.items()}}
+    ovp = exe + ".overlay.json"
+    with vcheck.Lock("go-configcmd"):
+        with open(ovp, "w") as f:
+            json.dump(ov, f)
+        rc, o = vcheck.sh(["go", "test", "-c", "-vet=off", "-overlay", ovp, "-o", exe, "./cmd/dawn"],
+                          cwd=vcheck.REPO, env=dict(vcheck.GOENV), timeout=900)
+    if rc != 0:
+        c.log("command-layer harness build failed:\n" + o[-4000:])
+        c.broken.append("harness build config (cmd/dawn)")
+        c.coverage["cmd_harness_build_output"] = o[-3000:]
+        return None
+    return exe
+
+
 def parse(out):
-    pairs, viols, stats = {}, [], {}
+    pairs, viols, stats, judged = {}, [], {}, []
     for line in out.split("\n"):
         f = line.split("\t")
         if f[0] == "C" and len(f) == 4:
@@ -23,10 +45,48 @@ def parse(out):
             viols.append(json.loads(f[1]))
         elif f[0] == "S":
             stats = json.loads(f[1])
-    return pairs, viols, stats
+        elif f[0] == "J" and len(f) == 3:
+            judged.append((f[1], f[2]))
+    return pairs, viols, stats, judged
 
 
-def corpus(c, exe):
+def unhex(h):
+    try:
+        return binascii.unhexlify(h).decode("utf-8", "replace")
+    except Exception:
+        return h
+
+
+def judge(c, drv, judged, stream, source=""):
+    """C19's predicate on the implementation: for every configuration the MODEL puts inside the quantifier
+    (Config.valid: canonical versions, paths that are fixed points of the model's cleanPath), Load(Write(c)) must be c
+    and Write(Load(Write(c))) must be the same bytes. Returns the number judged."""
+    if not judged:
+        return 0
+    outs = c.run_driver(drv, ["valid " + cfg for cfg, _ in judged])
+    if len(outs) != len(judged):
+        c.broken.append("driver answered %d of %d validity questions" % (len(outs), len(judged)))
+        return 0
+    n = 0
+    hist = {}
+    for (cfg, outcome), v in zip(judged, outs):
+        kind = outcome.split(" ")[0]
+        if v != "1":
+            hist["outside_quantifier_" + kind] = hist.get("outside_quantifier_" + kind, 0) + 1
+            continue
+        n += 1
+        hist["valid_" + kind] = hist.get("valid_" + kind, 0) + 1
+        if kind != "same":
+            detail = unhex(outcome.split(" ", 1)[1]) if " " in outcome else ""
+            what = {"noload": "written-file-does-not-load", "differs": "loaded-configuration-differs",
+                    "unstable": "rewrite-not-stable"}.get(kind, kind)
+            c.violation("%s%s: configuration %s: %s" % (source, what, cfg, detail[:700]), {"input": cfg, "kind": what})
+    c.count(stream, n, sample={"judge": "Load(Write(c)) == c and Write(Load(Write(c))) == Write(c) byte for byte, for every c "
+                                        "the model's Config.valid accepts", "judged": n}, hist=hist)
+    return n
+
+
+def corpus(c, exe, drv):
     """minimised past failures (corpus/C19/*.json), replayed on the implementation first"""
     d = os.path.join(vcheck.VERIF, "corpus", c.pid)
     n = 0
@@ -34,74 +94,138 @@ def corpus(c, exe):
         if not fn.endswith(".json"):
             continue
         case = json.load(open(os.path.join(d, fn)))
+        if not isinstance(case.get("input"), str):
+            continue
         p = subprocess.run([exe, "-replay", case["input"]], stdout=subprocess.PIPE, timeout=300)
-        _, viols, _ = parse(p.stdout.decode("utf-8", "replace"))
+        _, viols, _, judged = parse(p.stdout.decode("utf-8", "replace"))
         n += 1
         for v in viols:
             c.violation("corpus %s: %s: %s %s" % (fn, v["kind"], v.get("config", ""), v.get("detail", "")[:600]),
                         {"input": v["input"], "kind": v["kind"], "corpus": fn})
+        if drv:
+            judge(c, drv, judged, "config.corpus.judge", source="corpus %s: " % fn)
     c.count("config.corpus", n)
+
+
+def correspond_all(c, drv, pairs):
+    for stream, ps in sorted(pairs.items()):
+        if stream in ("config.load.variant", "config.rewrite"):
+            # texts in another layout / files found by the commands: where the model says "outside" (not in its
+            # sub-language) it makes no claim; everything it does parse must agree with the implementation
+            outs = c.run_driver(drv, [i for i, _ in ps])
+            kept = [(i, g) for (i, g), m in zip(ps, outs) if m != "outside"]
+            c.coverage.setdefault("outside_sub_language", {})[stream] = len(ps) - len(kept)
+            ps = kept
+        c.correspond(stream, drv, ps, nontrivial=lambda i, o: o.startswith("ok") or len(o) > 8)
 
 
 def run(c):
     c.assumptions += [
         "valid configuration (DESIGN.md section 4): requirement versions canonical semver, requirement paths fixed points of "
-        "CleanPath, all strings valid UTF-8, nil and empty Ignore/Requirements identified; names, ignore entries and "
+        "CleanPath — decided by the MODEL's cleanPath, never by the implementation's, so x@dev, user@host/x, x@v03, a@b@c … "
+        "are inside —, all strings valid UTF-8, nil and empty Ignore/Requirements identified; names, ignore entries and "
         "requirement names are arbitrary, including the empty string",
         "go-toml v2's parser is third-party and not verified: parseSub is a parser for the sub-language emit produces; that "
         "LoadConfigBytes agrees with it on written files and on re-formatted files (blanks, blank lines, key order) is "
         "checked per input by the streams config.load and config.load.variant",
         "x/mod/semver and path.Clean are modelled by their documented grammar/semantics, validated by config.semver and "
         "config.cleanpath",
+        "get/tidy: the real RunE functions of cmd/dawn are run (a test binary built from cmd/dawn with one overlaid _test "
+        "file) on generated dawn.toml files; tidy against a module cache pre-populated under a temporary HOME (no network), "
+        "get as `get -u` on projects without requirements (any other get has to dial a repository). What the resolver "
+        "returns is taken from mvs.Tidy / mvs.UpgradeAll themselves; C10/C11 are about that part",
         "observation, not a violation (outside the quantifier): CleanPath is not idempotent on paths whose last element "
         "keeps an @v0/@v1/@ suffix after the first cleaning (a@v1@v1 -> a@v1 -> a); such a path is not in clean form "
-        "(theorem C19_cleanpath_idem_counterexample, counter paths_whose_cleaned_form_is_not_a_fixed_point_observation)",
+        "(theorem C19_cleanpath_idem_counterexample)",
     ]
     c.coverage["rule"] = (
         "configurations: 71 special strings (every control byte, DEL, U+0085, U+2028, U+2029, BOM, astral runes, quotes, "
         "backslashes, TOML syntax characters, U+10FFFF, 2- and 3-byte boundaries, the empty string) placed in turn as name, "
-        "version, ignore entry, requirement name (alone and among others) and path; plus seeded random configurations: 0-4 "
-        "requirements whose names mix plain, quoted, empty and special strings, canonical versions incl. prerelease and "
-        "pseudo-versions, clean paths with and without @vN, 0-3 ignore entries; one fifth as many invalid configurations "
-        "(non-canonical versions, unclean paths) for the tie only. Every written file is also re-rendered twice with random "
-        "blanks, blank lines and key order. Non-trivial: the real code produced a value.")
+        "version, ignore entry, requirement name (alone and among others) and inside a path; 36 directed requirement paths "
+        "with `@` (x@dev, x@v03, x@v1.2, user@host/x, x@, x@v2@dev, a@b@c, @ in inner elements, kept and dropped majors); "
+        "plus seeded random configurations: 0-4 requirements whose names mix plain, quoted, empty and special strings, "
+        "canonical versions incl. prerelease and pseudo-versions, paths built clean (never passed through the "
+        "implementation's CleanPath) with 22 kinds of @suffix; one fifth as many invalid configurations for the tie only. "
+        "Every written file is also re-rendered twice with random blanks, blank lines and key order. Command layer: "
+        "generated dawn.toml files (special names, versions, non-empty ignore lists, 0-4 requirements with @ paths) "
+        "rewritten by the real `tidy` (fake module cache with transitive requirements) and `get -u`. "
+        "Non-trivial: the real code produced a value.")
     c.prove()
     exe = harness(c)
+    cexe = cmd_harness(c)
     drv = c.driver("drv_config")
     if exe:
-        corpus(c, exe)
+        corpus(c, exe, drv)
         p = subprocess.run([exe, "-seed", str(c.seed), "-tier", c.tier], stdout=subprocess.PIPE, timeout=1500)
-        pairs, viols, stats = parse(p.stdout.decode("utf-8", "replace"))
+        pairs, viols, stats, judged = parse(p.stdout.decode("utf-8", "replace"))
         if p.returncode != 0:
             c.broken.append("harness exited %d" % p.returncode)
         c.coverage["harness_stats"] = stats
         if drv:
-            for stream, ps in sorted(pairs.items()):
-                if stream == "config.load.variant":
-                    # texts in another layout: where the model says "outside" (not in its sub-language) it makes no
-                    # claim; everything it does parse must agree with LoadConfigBytes
-                    outs = c.run_driver(drv, [i for i, _ in ps])
-                    kept = [(i, g) for (i, g), m in zip(ps, outs) if m != "outside"]
-                    c.coverage.setdefault("outside_sub_language", {})[stream] = len(ps) - len(kept)
-                    ps = kept
-                c.correspond(stream, drv, ps, nontrivial=lambda i, o: o.startswith("ok") or len(o) > 8)
-        c.count("config.judge", stats.get("round_trips_judged", 0),
-                sample={"judge": "Load(Write(c)) == c and Write(Load(Write(c))) == Write(c) byte for byte, for every valid c",
-                        "round_trips_judged": stats.get("round_trips_judged", 0)},
-                hist={k: v for k, v in stats.items() if not k.startswith("pairs_")})
+            correspond_all(c, drv, pairs)
+            judge(c, drv, judged, "config.judge")
         for v in viols:
             c.violation("%s: %s %s" % (v["kind"], v.get("config", ""), v.get("detail", "")[:600]),
                         {"input": v["input"], "kind": v["kind"]})
+    if cexe:
+        env = dict(os.environ)
+        env.update({"VERIF_CMD_SEED": str(c.seed), "VERIF_CMD_TIER": c.tier})
+        outp = os.path.join(vcheck.BUILD, "configcmd-%d.out" % os.getpid())
+        env["VERIF_CMD_OUT"] = outp
+        p = subprocess.run([cexe, "-test.run", "^TestVerifRewrite$", "-test.timeout", "20m"], stdout=subprocess.PIPE,
+                           stderr=subprocess.STDOUT, env=env, timeout=1500, cwd=vcheck.BUILD)
+        text = open(outp, encoding="utf-8", errors="replace").read() if os.path.exists(outp) else ""
+        if os.path.exists(outp):
+            os.remove(outp)
+        pairs, viols, stats, _ = parse(text)
+        if p.returncode != 0 or not stats:
+            c.broken.append("command-layer harness exited %d" % p.returncode)
+            c.coverage["cmd_harness_output_tail"] = p.stdout.decode("utf-8", "replace")[-2000:]
+        c.coverage["cmd_harness_stats"] = stats
+        if drv:
+            correspond_all(c, drv, pairs)
+        c.count("config.rewrite.judge", stats.get("commands_judged", 0),
+                sample={"judge": "after the real `dawn tidy` / `dawn get -u`: name, version and ignore list of the rewritten "
+                                 "dawn.toml are those of the old file, its requirements are what mvs.Tidy / mvs.UpgradeAll "
+                                 "return for the old file, and the bytes are WriteConfigFile of exactly that",
+                        "commands_judged": stats.get("commands_judged", 0)},
+                hist={k: v for k, v in stats.items() if not k.startswith("pairs_")})
+        for v in viols:
+            c.violation("%s: %s" % (v["kind"], v.get("detail", "")[:900]), {"input": v["input"], "kind": v["kind"]})
     return c
 
 
 def replay(c, case):
+    inp = case["input"]
+    drv = c.driver("drv_config")
+    if isinstance(inp, dict) and inp.get("op") in ("tidy", "get-u"):
+        cexe = cmd_harness(c)
+        env = dict(os.environ)
+        outp = os.path.join(vcheck.BUILD, "configcmd-replay-%d.out" % os.getpid())
+        env.update({"VERIF_CMD_REPLAY": json.dumps(inp), "VERIF_CMD_OUT": outp})
+        subprocess.run([cexe, "-test.run", "^TestVerifRewrite$"], stdout=subprocess.PIPE, stderr=subprocess.STDOUT, env=env,
+                       timeout=600, cwd=vcheck.BUILD)
+        text = open(outp, encoding="utf-8", errors="replace").read() if os.path.exists(outp) else ""
+        print(text)
+        pairs, viols, _, _ = parse(text)
+        bad = len(viols)
+        for stream, ps in pairs.items():
+            outs = c.run_driver(drv, [i for i, _ in ps])
+            bad += sum(1 for (i, g), m in zip(ps, outs) if m != "outside" and m != g)
+        if bad:
+            print("VIOLATION property=C19 replay=(given)")
+            return 1
+        return 0
     exe = harness(c)
-    p = subprocess.run([exe, "-replay", case["input"]], stdout=subprocess.PIPE, timeout=300)
+    p = subprocess.run([exe, "-replay", inp], stdout=subprocess.PIPE, timeout=300)
     out = p.stdout.decode("utf-8", "replace")
     print(out)
-    _, viols, _ = parse(out)
-    if viols:
+    _, viols, _, judged = parse(out)
+    bad = len(viols)
+    if judged:
+        outs = c.run_driver(drv, ["valid " + cfg for cfg, _ in judged])
+        bad += sum(1 for (cfg, o), v in zip(judged, outs) if v == "1" and o != "same")
+    if bad:
         print("VIOLATION property=C19 replay=(given)")
         return 1
     return 0
